@@ -386,10 +386,12 @@ fn run_lane<P: Prop>(
         floor: lane.floor,
         ..Default::default()
     };
+    let mut hash_records = 0u64;
     let mut lane_all: HashSet<u64> = HashSet::new();
     let mut lane_nt: HashSet<u64> = HashSet::new();
     for sh in &shards {
         if let Ok(b) = fs::read(sh.out.join("hashes.bin")) {
+            hash_records += (b.len() / 9) as u64;
             for rec in b.chunks_exact(9) {
                 let h = u64::from_le_bytes(rec[..8].try_into().unwrap());
                 lane_all.insert(h);
@@ -470,6 +472,9 @@ fn run_lane<P: Prop>(
             }
         }
     }
+    // workers that were killed (non-termination) never wrote a summary: their finished cases are
+    // still in the hash records
+    lr.evaluations = lr.evaluations.max(hash_records);
     lr.distinct = lane_all.len() as u64;
     lr.distinct_nontrivial = lane_nt.len() as u64;
     lr.wall_s = t0.elapsed().as_secs_f64();
